@@ -18,7 +18,7 @@ sys.path.insert(0, os.path.join(HERE, "..", "bytesym"))
 import vcommon as V
 from vcommon import log
 import z3
-import core, ref, driver as D, gen01, gen15, gen07, gen12, gen08, gen13, gen17
+import core, ref, driver as D, gen01, gen15, gen07, gen12, gen08, gen13, gen17, gen04
 
 LIMITS = {"timeout_ms": 4000, "max_steps": 6000, "max_paths": 160, "max_depth": 10, "budget_s": 90}
 G = {}
@@ -37,7 +37,7 @@ def build_cli(scratch):
 
 
 def family(prop):
-    return {"C01": gen01, "C15": gen15, "C07": gen07, "C12": gen12, "C08": gen08, "C13": gen13, "C17": gen17}[prop]
+    return {"C01": gen01, "C15": gen15, "C07": gen07, "C12": gen12, "C08": gen08, "C13": gen13, "C17": gen17, "C04": gen04, "C18": gen04}[prop]
 
 
 def path_models(paths, nin, limit):
@@ -66,6 +66,18 @@ def path_models(paths, nin, limit):
     return out
 
 
+def norm(lines):
+    """printed values -> the lines a text-mode reader of stdout sees (a value may contain line feeds; CR / CRLF read as LF)"""
+    if not lines:
+        return []
+    t = "".join(l + "\n" for l in lines).replace("\r\n", "\n").replace("\r", "\n").split("\n")
+    t.pop()
+    return t
+
+
+PIPELINE = {"C04": "execute", "C18": "transpile"}
+
+
 def work(job):
     idx, item, validate = job
     prop, exe, wdir = G["prop"], G["exe"], G["wdir"]
@@ -89,8 +101,18 @@ def work(job):
             for vals, p in path_models(keep["impl"], fam.NIN, validate):
                 ptrace, rtrace, holder = [], [], {}
                 st, lines, detail = D.predict_impl(funcs, mp, vals, trace=ptrace, holder=holder)
+                lines = norm(lines)
                 rc, out, err = D.run_real(exe, wdir, stem + "r", ref.render(prog, vals), trace=rtrace, full_stderr=(prop == "C17"))
                 res["validated"] += 1
+                if prop in PIPELINE:
+                    # C04 / C18: the same program and inputs through the file pipeline; stdout byte for byte, success / failure
+                    pl = D.run_pipelines(exe, wdir, stem + "m", ref.render(prog, vals), ("run", PIPELINE[prop]))
+                    res["pipeline_runs"] = res.get("pipeline_runs", 0) + 1
+                    a_, b_ = pl["run"], pl[PIPELINE[prop]]
+                    if D.pipelines_differ(a_, b_):
+                        res.setdefault("pipeline", []).append({"inputs": vals, "pipeline": PIPELINE[prop],
+                                                               "run": [a_[0], a_[1].decode("utf-8", "replace"), a_[2][-200:]],
+                                                               "other": [b_[0], b_[1].decode("utf-8", "replace"), b_[2][-200:]]})
                 if prop == "C17" and st == "fail":
                     # C17: a failing program ends in a reported run-time error (status 1, no panic / abort) whose call trace lists
                     # exactly the frames active at the point of failure, innermost first
@@ -116,11 +138,13 @@ def work(job):
                              "legend": "(function, ip, frames, open scope markers, operand-stack size)"}
                 if rc is None or (rc == 0) != (st == "ok") or out != lines or tdiff is not None:
                     rst, rlines, _ = D.predict_ref(prog, vals)
+                    rlines = norm(rlines)
                     res["mismatch"].append({"inputs": vals, "predicted": [st, lines, detail], "real": [rc, out, err[-200:]], "semantics": [rst, rlines], "trace_diff": tdiff,
                                             "real_differs_from_semantics": rc is None or (rc == 0) != (rst == "ok") or out != rlines})
         # replay of solver counterexamples: real run vs. the semantics
         for v in res.get("violations", []):
             st, lines, detail = D.predict_ref(prog, v["inputs"])
+            lines = norm(lines)
             rc, out, err = D.run_real(exe, wdir, stem + "v", ref.render(prog, v["inputs"]))
             v["expected"] = [st, lines]
             v["real"] = [rc, out, err[-300:]]
@@ -129,7 +153,7 @@ def work(job):
         res.update(status="unsupported", reason=str(e)[:300])
     except Exception as e:   # noqa
         res.update(status="unsupported", reason="%s: %s" % (type(e).__name__, str(e)[:300]))
-    for suf in ("", "r", "v"):
+    for suf in ("", "r", "v", "m"):
         try:
             os.remove(os.path.join(wdir, stem + suf + ".ms"))
         except OSError:
@@ -198,6 +222,8 @@ def select(prop, tier):
         return gen13.select(tier, V.seed())
     if prop == "C17":
         return gen17.select(tier, V.seed())
+    if prop in ("C04", "C18"):
+        return gen04.select(tier, V.seed())
     if prop == "C01":
         if tier == "quick":
             return gen01.select([(1, None), (2, 1100), (3, 200)], V.seed(), deep=80)
@@ -255,6 +281,10 @@ def report(a, prop, results, space, full_depth, t0):
     for r in results:
         for c in r.get("c17", []):
             new.append((r, {"inputs": c["inputs"], "why": c["why"], "expected": c["expected"], "real": c["real"], "reproduced": True}))
+    for r in results:
+        for c in r.get("pipeline", []):
+            new.append((r, {"inputs": c["inputs"], "why": "`run` and the `%s` pipeline behave differently (exit status / stdout)" % c["pipeline"], "pipeline": c["pipeline"],
+                            "expected": c["run"][:2], "real": [c["other"][0], c["other"][1].split("\n"), c["other"][2]], "reproduced": True}))
     for what, n in known_hits.items():
         print("KNOWN-FINDING: property=%s %s (%d programs of this run show it)" % (prop, what, n))
     seen = set()
@@ -267,7 +297,7 @@ def report(a, prop, results, space, full_depth, t0):
             continue
         fam = family(prop)
         rp = V.save_replay(prop, "%s_%s" % (prop, hashlib.sha1(repr((r["item"], v["inputs"])).encode()).hexdigest()[:12]),
-                           {"property": prop, "item": r["item"], "what": r["what"], "inputs": v["inputs"], "why": v["why"],
+                           {"property": prop, "item": r["item"], "what": r["what"], "inputs": v["inputs"], "why": v["why"], "pipeline": v.get("pipeline"),
                             "program": ref.render(fam.program(*r["item"]), v["inputs"]), "expected": v["expected"], "real": v["real"]})
         print("VIOLATION property=%s replay=%s" % (prop, rp))
         print("   %s, inputs %s: %s; the semantics prescribes %s, the real run printed %s (exit %s)"
@@ -308,6 +338,7 @@ def report(a, prop, results, space, full_depth, t0):
         "paths_outside_bound (loop/step/call-depth bound reached; outside the claim)": nbound,
         "failing_paths_compared (assert, zero divisor, overflow: output must stop at the same statement)": sum(r.get("fail_paths", 0) for r in results),
         "traces_validated_against_impl": nval, "summary_mismatches": len(mism),
+        "pipeline_runs_compared (`run` vs. the file pipeline of this property on the same program and inputs: stdout byte for byte, success / failure)": sum(r.get("pipeline_runs", 0) for r in results),
         "call_traces_compared (failing real runs: status 1, no panic, trace = frames active at the failure)": sum(r.get("call_traces_compared", 0) for r in results),
         "trace_records_compared (real interpreter vs. instruction summary, per executed instruction: function, ip, frames, scope markers, operand-stack size)": sum(r.get("trace_records", 0) for r in results),
         "family": {"exhaustive_to_depth": full_depth, "space_listed": space, "selected": len(results)},
@@ -346,9 +377,21 @@ def replay(a, prop):
     d = json.load(open(a.replay))
     fam = family(prop)
     item = d["item"]
-    item = tuple(tuple(x) if isinstance(x, list) else x for x in item) if prop == "C01" else (tuplify(item[0]), item[1], item[2])
+    if prop in PIPELINE:
+        item = tuplify(item)
+    else:
+        item = tuple(tuple(x) if isinstance(x, list) else x for x in item) if prop == "C01" else (tuplify(item[0]), item[1], item[2])
     prog = fam.program(*item)
+    if d.get("pipeline"):
+        pl = D.run_pipelines(G["exe"], G["wdir"], "replay", ref.render(prog, d["inputs"]), ("run", d["pipeline"]))
+        print("run: %s | %s: %s" % (pl["run"][:2], d["pipeline"], pl[d["pipeline"]][:2]))
+        if D.pipelines_differ(pl["run"], pl[d["pipeline"]]):
+            print("VIOLATION property=%s replay=%s" % (prop, a.replay))
+            return V.EXIT_VIOLATION
+        print("not reproduced on the current tree")
+        return V.EXIT_OK
     st, lines, detail = D.predict_ref(prog, d["inputs"])
+    lines = norm(lines)
     rc, out, err = D.run_real(G["exe"], G["wdir"], "replay", ref.render(prog, d["inputs"]))
     print("semantics: %s %s | real: exit %s %s" % (st, lines, rc, out))
     if rc is None or (rc == 0) != (st == "ok") or out != lines:
